@@ -59,9 +59,30 @@ class State:
     pass
 
 
+def union_prelude(t):
+    """process history: for every union of the type with >= 2 members, ANOTHER union class listing the same members in
+    reverse order has stored an object of each member (object form) before the type under test is used"""
+    for u in xt.subtypes(t):
+        if u[0] == "U" and len(u[1]) > 1 and u not in _preluded:
+            _preluded.add(u)
+            try:
+                rev = ("U", tuple(reversed(u[1])))
+                rcls = xt.build(rev)
+                for m in u[1]:
+                    mv = xt.gen(m, "ramp")
+                    if xt.py_expressible(m, mv):
+                        rcls(xt.construct(m, xt.to_py(m, mv)))
+            except Exception:
+                pass
+
+
+_preluded = set()
+
+
 def build(t, v0, pname, hist, salt=0):
     """Construct the initial object and replay `hist` (without judging).  Returns State."""
     s = State()
+    union_prelude(t)
     o = cons.execute(t, v0, "py" if xt.py_expressible(t, v0) else "nd", pname, salt)
     if o.error is not None:
         raise o.error
@@ -127,6 +148,8 @@ def apply_event(s, ev):
         elif form in ("xobj-same", "xobj-same-view"):
             # the source lives in the SAME buffer as the object it is assigned into
             arg = xt.construct(ft, xt.to_py(ft, val), _buffer=s.h._buffer)
+        elif form == "member-obj":
+            arg = xt.construct(ft[1][val[0]], xt.to_py(ft[1][val[0]], val[1]), _buffer=s.h._buffer)
         if form.endswith("-view") and ft[0] != "U":
             arg = xt.build(ft)._from_buffer(arg._buffer, arg._offset)  # a view, not the constructor's handle
         do_set(s, via, path, arg)
@@ -265,6 +288,12 @@ def events(s, opts, depth_now):
                 tt = rt[1] if rt[0] == "R" else rt[1][0]
                 fresh = xt.gen(tt, "alt", xt.Ctr(200 + n))
                 evs.append(("setc", via, path, "py", fresh if rt[0] == "R" else (0, fresh)))
+                if rt[0] == "U" and len(rt[1]) > 1 and via == vias[0]:
+                    # the last member given as an OBJECT living in the same buffer (bound, not copied)
+                    k = len(rt[1]) - 1
+                    lastv = xt.gen(rt[1][k], "alt", xt.Ctr(300 + n))
+                    if xt.py_expressible(rt[1][k], lastv):
+                        evs.append(("setc", via, path, "member-obj", (k, lastv)))
     if opts.get("grow", True) and s.pl.buf is not None:
         evs.append(("grow",))
     return evs
